@@ -15,7 +15,12 @@ enum Role {
 pub fn gen_case(t: &mut Tape, core_only: bool) -> E2Case {
     let named = !t.chance(1, 4);
     let nf = 1 + t.weighted(&[2, 4, 4, 2, 1]);
+    // the counterpart has the form of S, or (1 in 4 named structs) it is positional and reached through `as ()` and index renames
+    let d_named = named && !t.chance(1, 4);
     let mut labels = vec![if named { "named".to_string() } else { "tuple".to_string() }, format!("fields:{}", nf)];
+    if named && !d_named {
+        labels.push("named-to-positional".into());
+    }
     let sname = |i: usize| if named { ["a", "b", "c", "d", "e"][i].to_string() } else { format!("{}", i) };
     let mut roles: Vec<Role> = vec![];
     let mut dpos = 0;
@@ -26,7 +31,7 @@ pub fn gen_case(t: &mut Tape, core_only: bool) -> E2Case {
             roles.push(Role::Ghost(300 + t.below(600) as i64));
             continue;
         }
-        let d = if named {
+        let d = if d_named {
             if t.chance(1, 3) {
                 ["x", "y", "z", "w", "p"][i].to_string()
             } else {
@@ -41,24 +46,40 @@ pub fn gen_case(t: &mut Tape, core_only: bool) -> E2Case {
     }
     let mapped: Vec<usize> = (0..nf).filter(|i| matches!(roles[*i], Role::Mapped { .. })).collect();
     if mapped.is_empty() {
-        roles[0] = Role::Mapped { d: if named { sname(0) } else { "0".into() }, from: ExprT::Id, into: ExprT::Id };
+        roles[0] = Role::Mapped { d: if d_named { sname(0) } else { "0".into() }, from: ExprT::Id, into: ExprT::Id };
     }
     let mapped: Vec<usize> = (0..nf).filter(|i| matches!(roles[*i], Role::Mapped { .. })).collect();
+    // a positional counterpart: the members may stand in another order there (index renames)
+    if !d_named && mapped.len() >= 2 && t.chance(2, 3) {
+        let mut perm: Vec<usize> = (0..mapped.len()).collect();
+        t.shuffle(&mut perm);
+        if perm.iter().enumerate().any(|(k, p)| k != *p) {
+            labels.push("permuted-positions".into());
+        }
+        for (k, i) in mapped.iter().enumerate() {
+            if let Role::Mapped { d, .. } = &mut roles[*i] {
+                *d = format!("{}", perm[k]);
+            }
+        }
+    }
     // optional bare #[parent] member (named structs): its type P / PF maps itself; one of its members is also written by
     // the struct itself, so the order "own assignments, then the nested value" is observable in every Into-like flavour
-    let bare_parent = named && t.chance(1, 3);
+    let bare_parent = d_named && t.chance(1, 3);
     let overlap: Option<String> = if bare_parent { mapped.first().and_then(|i| if let Role::Mapped { d, .. } = &roles[*i] { Some(d.clone()) } else { None }) } else { None };
     // D-only members
     let n_ghosts = if bare_parent { 0 } else { t.weighted(&[4, 2, 1]) };
-    let n_unmentioned = if named && !bare_parent { t.weighted(&[3, 2, 1]) } else { 0 };
+    let n_unmentioned = if d_named { t.weighted(&[3, 2, 1]) } else { 0 };
     let mut d_members: Vec<(String, Option<usize>, Option<i64>)> = vec![]; // (name, from S field, ghosts const)
     for i in &mapped {
         if let Role::Mapped { d, .. } = &roles[*i] {
             d_members.push((d.clone(), Some(*i), None));
         }
     }
+    if !d_named {
+        d_members.sort_by_key(|m| m.0.parse::<usize>().unwrap_or(0));
+    }
     for g in 0..n_ghosts {
-        let name = if named { format!("g{}", g) } else { format!("{}", d_members.len()) };
+        let name = if d_named { format!("g{}", g) } else { format!("{}", d_members.len()) };
         d_members.push((name, None, Some(2000 + t.below(900) as i64)));
     }
     for u in 0..n_unmentioned {
@@ -83,8 +104,9 @@ pub fn gen_case(t: &mut Tape, core_only: bool) -> E2Case {
     // ---- instructions --------------------------------------------------------------------------
     let upd = if n_unmentioned > 0 { "| ..sentinel()" } else { "" };
     let ghosts_attr = if n_ghosts > 0 { format!("#[ghosts({})]\n", d_members.iter().filter(|m| m.2.is_some()).map(|m| format!("{}: {{ {} }}", m.0, m.2.unwrap())).collect::<Vec<_>>().join(", ")) } else { String::new() };
-    let s_type_attrs = format!("#[from(D)]\n#[into(D{})]\n#[into_existing(D)]\n{}", upd, ghosts_attr);
-    let sf_type_attrs = format!("#[try_from(D, E)]\n#[try_into(D, E{})]\n#[try_into_existing(D, E)]\n{}", upd, ghosts_attr);
+    let hint = if named && !d_named { " as ()" } else { "" };
+    let s_type_attrs = format!("#[from(D{h})]\n#[into(D{h}{})]\n#[into_existing(D{h})]\n{}", upd, ghosts_attr, h = hint);
+    let sf_type_attrs = format!("#[try_from(D{h}, E)]\n#[try_into(D{h}, E{})]\n#[try_into_existing(D{h}, E)]\n{}", upd, ghosts_attr, h = hint);
     let mut s_fields = String::new();
     let mut sf_fields = String::new();
     let mut plain_fields = String::new();
@@ -157,12 +179,12 @@ pub fn gen_case(t: &mut Tape, core_only: bool) -> E2Case {
         extra_derives.push(format!("#[from_ref(D)]\n#[into_existing(D)]\npub struct P {{ {} }}", body));
         extra_derives.push(format!("#[try_from_ref(D, E)]\n#[try_into_existing(D, E)]\npub struct PF {{ {} }}", body));
     }
-    if named {
+    if d_named {
         let _ = write!(h, "#[derive(Debug, Clone, PartialEq, Default)] pub struct D {{ {} }}\n", d_members.iter().map(|m| format!("pub {}: i64,", m.0)).collect::<Vec<_>>().join(" "));
     } else {
         let _ = write!(h, "#[derive(Debug, Clone, PartialEq)] pub struct D({});\n", d_members.iter().map(|_| "pub i64,").collect::<Vec<_>>().join(" "));
     }
-    let d_lit = |vals: &[String]| if named { format!("D {{ {} }}", d_members.iter().zip(vals).map(|(m, v)| format!("{}: {}", m.0, v)).collect::<Vec<_>>().join(", ")) } else { format!("D({})", vals.iter().map(|v| format!("{},", v)).collect::<Vec<_>>().join(" ")) };
+    let d_lit = |vals: &[String]| if d_named { format!("D {{ {} }}", d_members.iter().zip(vals).map(|(m, v)| format!("{}: {}", m.0, v)).collect::<Vec<_>>().join(", ")) } else { format!("D({})", vals.iter().map(|v| format!("{},", v)).collect::<Vec<_>>().join(" ")) };
     let sent: Vec<String> = (0..d_members.len()).map(|j| format!("{}", -(7000 + 11 * j as i64))).collect();
     let _ = write!(h, "pub fn sentinel() -> D {{ {} }}\n", d_lit(&sent));
     let trig_d = trig.and_then(|i| if let Role::Mapped { d, .. } = &roles[i] { Some(d.clone()) } else { None });
